@@ -365,12 +365,60 @@ def rule_cli(ctx: Ctx, repo: Repo) -> None:
     gn = repo.fn(CLI, "get_newly_imported_items")
     ctx.functions.update({fi.fq, gn.fq})
     ps = fi.positional_params()
-    for flag in (False, True):
+    def symbol_of(it: R) -> Any:
+        return it.fields["alias"].v or it.fields["obj_name"].v or it.fields["module_name"].v
+
+    def symbol_mapping_values(items: List[R]) -> List[R]:
+        """libcst GatherImportsVisitor.symbol_mapping: one entry per bound SYMBOL - a later import of the same symbol replaces the
+        earlier one (read from the installed libcst's source)"""
+        m: Dict[Any, R] = {}
+        for it in items:
+            m[symbol_of(it)] = it
+        return list(m.values())
+
+    for flag, variant in ((False, "plain"), (True, "plain"), (True, "symbol bound twice")):
         trace: List[Tuple[Any, ...]] = []
         stub_items = [item("pkg.shapes", "Circle"), item("typing", "List"), item("os", None)]
         src_items = [item("os", None), item("pkg.shapes", None)]
+        if variant == "symbol bound twice":
+            # `try: from fast import Point` / `except ImportError: from slow import Point` - the source binds Point twice;
+            # the stub imports the class where it really lives
+            stub_items = [item("fast", "Point"), item("typing", "List")]
+            src_items = [item("fast", "Point"), item("slow", "Point"), item("os", None)]
         gather_count = [0]
-        def hook(call, fname, fval, args, kwargs, st, _t=trace, _g=gather_count):
+        n_gatherers = [0]
+        visited: Dict[int, Any] = {}
+
+        def gathered(gid: int, attr: str) -> Optional[V]:
+            """the attributes of a libcst GatherImportsVisitor after it visited a module (catalogue read from libcst's source):
+            module_imports {module}, module_aliases {module: alias}, object_mapping {module: {name}}, alias_mapping
+            {module: [(name, alias)]}, symbol_mapping {symbol: item} (last import of a symbol wins)"""
+            which = visited.get(gid)
+            if which is None:
+                return None
+            items_ = stub_items if (isinstance(which, R) and which.fields.get("of") == S("stub")) else src_items
+            f_ = lambda it, k_: it.fields[k_].v  # noqa: E731
+            if attr == "module_imports":
+                return K(frozenset(K(f_(it, "module_name")) for it in items_ if f_(it, "obj_name") is None and f_(it, "alias") is None))
+            if attr == "module_aliases":
+                return R("dict", items=tuple((K(f_(it, "module_name")), K(f_(it, "alias"))) for it in items_ if f_(it, "obj_name") is None and f_(it, "alias") is not None))
+            if attr == "object_mapping":
+                mods: Dict[str, List[V]] = {}
+                for it in items_:
+                    if f_(it, "obj_name") is not None and f_(it, "alias") is None:
+                        mods.setdefault(f_(it, "module_name"), []).append(K(f_(it, "obj_name")))
+                return R("dict", items=tuple((K(m_), K(frozenset(v_))) for m_, v_ in mods.items()))
+            if attr == "alias_mapping":
+                mods2: Dict[str, List[V]] = {}
+                for it in items_:
+                    if f_(it, "obj_name") is not None and f_(it, "alias") is not None:
+                        mods2.setdefault(f_(it, "module_name"), []).append(K((K(f_(it, "obj_name")), K(f_(it, "alias")))))
+                return R("dict", items=tuple((K(m_), R("list", items=tuple(v_))) for m_, v_ in mods2.items()))
+            if attr == "symbol_mapping":
+                return R("dict", items=tuple((K(symbol_of(it)), it) for it in symbol_mapping_values(items_)))
+            return None
+
+        def hook(call, fname, fval, args, kwargs, st, _t=trace, _g=gather_count, _n_g=n_gatherers, _visited=visited):
             m = call.func.attr if isinstance(call.func, ast.Attribute) else None
             d = fname or ""
             if d == "parse_module":
@@ -393,27 +441,39 @@ def rule_cli(ctx: Ctx, repo: Repo) -> None:
                 _t.append(("transform", fval.fields["what"].v, st.freeze(args[0])))
                 return R("transformed", by=fval.fields["what"], of=st.freeze(args[0]))
             if d == "GatherImportsVisitor":
-                return R("gatherer", id=K(len(_t)))
+                _n_g[0] += 1
+                return R("gatherer", id=K(_n_g[0]))
             if m == "visit" and isinstance(fval, R) and fval.kind == "module":
                 _t.append(("gather", st.freeze(fval)))
+                if args and isinstance(args[0], R) and args[0].kind == "gatherer":
+                    _visited[args[0].fields["id"].v] = st.freeze(fval)
                 return K(None)
+            if d == "ImportItem":
+                names = ("module_name", "obj_name", "alias", "relative")
+                vals = {n_: v_ for n_, v_ in zip(names, args)}
+                vals.update(kwargs)
+                mn = vals.get("module_name", K(""))
+                return item(mn.v if isinstance(mn, K) else str(mn), vals.get("obj_name", K(None)).v, vals.get("alias", K(None)).v) if all(isinstance(vals.get(n_, K(None)), K) for n_ in names[:3]) else None
             if m == "values" and isinstance(fval, R) and fval.kind == "opaque" and fval.fields["attr"] == K("symbol_mapping"):
                 _g[0] += 1
                 # the n-th gather call belongs to the n-th visited module
                 gathers = [e for e in _t if e[0] == "gather"]
                 which = gathers[_g[0] - 1][1] if len(gathers) >= _g[0] else None
                 is_stub = isinstance(which, R) and which.fields.get("of") == S("stub")
-                return K(tuple(stub_items if is_stub else src_items))
+                return K(tuple(symbol_mapping_values(stub_items if is_stub else src_items)))
             return None
         sc = CliScenario(repo, CLI, "apply_stub_using_libcst", hook=hook)
         base = sc.on_attr
-        def on_attr(obj, attr, nd, st, _b=base):
+        def on_attr(obj, attr, nd, st, _b=base, _gathered=gathered):
             if isinstance(obj, R) and obj.kind == "gatherer":
+                v_g = _gathered(obj.fields["id"].v, attr)
+                if v_g is not None:
+                    return v_g
                 return R("opaque", of=obj, attr=K(attr))
             return _b(obj, attr, nd, st)
         sc.ri.on_attr = sc.ri.interp.on_attr = on_attr  # type: ignore
         k, res = sc.result({ps[0]: S("stub"), ps[1]: S("source"), ps[2]: S("overwrite"), ps[3]: K(flag)})
-        lab = f"confine={flag}"
+        lab = f"confine={flag}" + ("" if variant == "plain" else f" ({variant})")
         stores = [e for e in trace if e[0] == "store_stub"]
         ok = len(stores) == 1
         if ok:
@@ -435,8 +495,13 @@ def rule_cli(ctx: Ctx, repo: Repo) -> None:
             moved = si[0][1][1] if ok else None
             got = sorted(map(repr, moved.fields["items"])) if isinstance(moved, R) and moved.kind == "list" else None
             want = sorted(map(repr, [i for i in stub_items if i not in src_items]))
-            ctx.check(got == want, "R-C16.2", gn.fq, "the imports to confine are exactly the stub's imports that the source does not already have (set difference, stub minus source)",
-                      construct=f"moved {got} expected {want}")
+            if variant == "plain":
+                ctx.check(got == want, "R-C16.2", gn.fq, "the imports to confine are exactly the stub's imports that the source does not already have (set difference, stub minus source)",
+                          construct=f"moved {got} expected {want}")
+            else:
+                ctx.check(got == want, "R-C16.2", gn.fq,
+                          "an import the source already has is never taken for new, also when the source binds the same symbol more than once (try/except ImportError fallbacks)",
+                          construct="the source's imports are read from GatherImportsVisitor.symbol_mapping, which keeps only the LAST import of each symbol: an earlier import of the same symbol counts as new and is removed from the source")
             ctx.check(R("module", of=S("source")) in gathers and R("module", of=S("stub")) in gathers and len(gathers) == 2, "R-C16.2", gn.fq,
                       "the source's existing imports are gathered from the untransformed source module", construct=f"{[str(g)[:60] for g in gathers]}")
         else:
